@@ -125,17 +125,20 @@ func (b *Broker) Register() {
 func (b *Broker) dial(c transport.DialConfig) (transport.Transport, error) {
 	b.mu.Lock()
 	b.Dials++
-	outcome := "ok"
-	if len(b.DialScript) > 0 {
-		outcome = b.DialScript[0]
-		b.DialScript = b.DialScript[1:]
-	}
 	delay := b.DialDelay
 	gate := b.DialGate
 	b.mu.Unlock()
 	if gate != nil {
 		<-gate
 	}
+	// the outcome is decided when the attempt is released, so that a harness can script the attempt that is waiting at the gate
+	b.mu.Lock()
+	outcome := "ok"
+	if len(b.DialScript) > 0 {
+		outcome = b.DialScript[0]
+		b.DialScript = b.DialScript[1:]
+	}
+	b.mu.Unlock()
 	if delay > 0 {
 		time.Sleep(delay)
 	}
@@ -252,6 +255,10 @@ func mkID(kind byte, n int) uuid.UUID {
 	u[0], u[1], u[2], u[15] = kind, byte(n>>8), byte(n), 0x5a
 	return u
 }
+
+// Respond answers a message the way the automatic responder would (for harnesses that hold a request back with Policy and
+// release it later).
+func (i *Inc) Respond(m message.Message) { i.auto(m) }
 
 // auto: the default broker behaviour
 func (i *Inc) auto(m message.Message) {
